@@ -428,13 +428,22 @@ def run(ctx):
         if not f.is_pattern and ctx.tier == "quick" and "stdout_mt" not in f.id and "StdErrThreaded" not in f.id:
             continue
         ok = False
+        per_thread = False
         for bid, i, e in f.roots():
             x = e["expr"]
             if x.get("k") == "return":
                 r = ir.unwrap(x.get("e"))
                 if isinstance(r, dict) and r.get("k") == "ref" and (r.get("storage") == "static_local" or r["decl"].startswith("static:")):
                     ok = True
+                    per_thread = per_thread or bool(r.get("thread_local"))
         ctx.check(ok, "R09.5", f.id, "instance-is-magic-static", "logger::instance() does not return a function-local static", f)
+        ctx.check(not per_thread, "R09.5", f.id, "instance-is-one-per-process", "logger::instance() returns a thread_local object: every thread has its own logger - and with it its own sink object, "
+                  "so whatever the sink keeps as a member (a mutex, a stream) is not shared by the threads that log", f)
+    # one statement is one sink call (one lock scope): R10.4 re-evaluated
+    ctx.rule("R09.7", "a log statement is handed to the sink in one call (R10.4 re-evaluated): a record emitted in several sink calls is several lock scopes")
+    if ctx.prop == "C09" and not getattr(ctx, "_sharing", False):
+        from .common import share
+        share(ctx, "C10", ("R10.4",), "R09.7", "hand-over obligations shared with C10", 8)
     ctx.trust("std::mutex + scoped lock objects give mutual exclusion for the lifetime of the lock object; function-local statics are "
               "initialised once, thread-safely (Appendix D.4)")
 
